@@ -7,7 +7,13 @@
 use super::bcfmt::{Const, Ins, Prog};
 use super::rng::Rng;
 
-const STRINGS: [&str; 28] = [
+const STRINGS: [&str; 34] = [
+    "18446744073709551615",
+    "k:18446744073709551615",
+    "4294967295",
+    "-2147483648",
+    "65535",
+    "0",
     "",
     "a",
     "λ:",
@@ -177,7 +183,13 @@ pub fn structural(rng: &mut Rng, o: &Opts) -> Prog {
             let ins = match rng.below(18) {
                 0 => {
                     label_counter += 1;
-                    consts.push(Const::Str(format!("L{}{}", label_counter, if rng.chance(1, 4) { " ž" } else { "" })));
+                    consts.push(Const::Str(match rng.below(8) {
+                        0 => format!("L{} ž", label_counter),
+                        1 => format!("k:{}", u64::MAX - (label_counter as u64 - 1)),
+                        2 => format!("{}", u64::MAX - (label_counter as u64 - 1)),
+                        3 => format!("L{}:{}", label_counter, [4294967295u64, 65535, 2147483647, 9223372036854775807][label_counter % 4]),
+                        _ => format!("L{}", label_counter),
+                    }));
                     let li = (consts.len() - 1) as u16;
                     my_labels.push(li);
                     Ins::Label(li)
